@@ -134,8 +134,9 @@ def _check_pair_on(ea, eb, LO, HI, spanb):
 
 
 def _check_points(case):
-    pa, pb = case
-    A, B = PT("A", list(pa), 0.0, 4.0), PT("B", list(pb), 0.0, 4.0)
+    pa, pb = case[:2]
+    lo, hi = case[2] if len(case) > 2 else (0.0, 4.0)
+    A, B = PT("A", list(pa), lo, hi), PT("B", list(pb), lo, hi)
     st, u, _ = call(A.union, B)
     tag = f"A={pa} B={pb}"
     if st == "exc":
@@ -150,7 +151,7 @@ def _check_points(case):
     msg = None
     if ents(u) != exp:
         msg = f"point union {ents(u)}, expected {exp}"
-    elif (u.minTimestamp, u.maxTimestamp) != (0.0, 4.0):
+    elif (u.minTimestamp, u.maxTimestamp) != (lo, hi):
         msg = f"span ({u.minTimestamp},{u.maxTimestamp})"
     elif wellformed(u):
         msg = "ill-formed: " + wellformed(u)
@@ -252,6 +253,18 @@ def parts(tier):
                         rule="all ordered pairs of interval sets (<=2) on the ulp-neighbour grid %s: overlaps and touches that differ by one ulp" % (ugrid,),
                         bounds={}))
 
+    bgrid = D.BIG[:6]
+    bsets = D.interval_sets(bgrid, 2)
+
+    def gen_big():
+        for sa in bsets:
+            for sb in bsets[:: 2 if quick else 1]:
+                yield (_uniq(D.labelled(sa), "a"), _uniq(D.labelled(sb), "x"), 0.0)
+
+    ps.append(InputPart("setops-interval-pairs-far-from-zero", gen_big, lambda c: _check_pair_on(c[0], c[1], bgrid[0], bgrid[-1], bgrid[-1]),
+                        rule="ordered pairs of interval sets (<=2) on the dyadic grid 2**40 + {0, 2**-7, 0.25, 0.5, 1, 2}: overlaps of 7.8 ms and "
+                             "intervals 0.25 s apart are below 1e-14 resp. 1e-9 of the time values but are real", bounds={}))
+
     def gen_blank():
         small = D.cell_tiers(4, ["a"])
         for ta in small:
@@ -300,6 +313,13 @@ def parts(tier):
                 if set(sa) & set(sb):  # the incoming label may also sort BEFORE the existing one, or be equal to it
                     yield (D.labelled_points(sa, "vwxyz"), D.labelled_points(sb, "abcde"))
                     yield (D.labelled_points(sa, "m"), D.labelled_points(sb, "m"))
+        # near-coincidences that are not coincidences: times one ulp apart (0.3 vs 0.1+0.2) and times 7.8 ms apart at 2**40
+        for g in (tuple(sorted(D.ULP)), D.BIG[:5]):
+            gsets = D.point_sets(g, 2)
+            for sa in gsets:
+                for sb in gsets:
+                    yield (D.labelled_points(sa, "abcde"), D.labelled_points(sb, "vwxyz"), (g[0], g[-1]))
+                    yield (D.labelled_points(sa, "m"), D.labelled_points(sb, "m"), (g[0], g[-1]))
 
     ps.append(InputPart("setops-point-pairs", gen_points, _check_points,
                         rule="all ordered pairs of labelled point subsets of a 5-grid; union = union of times, coinciding labels "
